@@ -1,0 +1,386 @@
+//go:build verif
+
+package disk
+
+// Verification hooks (build tag "verif"). With the tag off, verif_off.go
+// provides empty versions of the same functions.
+//
+// Events are emitted at linearization points (SizedLRU events while
+// diskCache.mu is held by the caller, file events right after the file system
+// step) to a sink; a global sequence number is assigned under the sink's own
+// mutex, never from wall-clock time. Gates are blocking call-outs that a
+// scheduler can use to park a goroutine outside any lock region.
+
+import (
+	"container/list"
+	"encoding/json"
+	"os"
+	"runtime"
+	"strconv"
+	"sync"
+	"sync/atomic"
+	"unsafe"
+)
+
+func uintptrOf(c *SizedLRU) uintptr         { return uintptr(unsafe.Pointer(c)) }
+func uintptrOfElem(e *list.Element) uintptr { return uintptr(unsafe.Pointer(e)) }
+
+// VerifEvent is one trace record.
+type VerifEvent struct {
+	Seq  int64  `json:"seq"`
+	Lru  uint64 `json:"lru"` // identity of the SizedLRU instance
+	G    int64  `json:"g"`   // goroutine id
+	Ev   string `json:"ev"`
+	Key  string `json:"key,omitempty"`
+	Elem uint64 `json:"elem,omitempty"` // identity of the *list.Element
+	// arguments / results
+	Size    int64    `json:"size"`
+	Dsz     int64    `json:"dsz"`
+	Rnd     string   `json:"rnd,omitempty"`
+	Legacy  bool     `json:"legacy,omitempty"`
+	Ok      bool     `json:"ok"`
+	Mapped  bool     `json:"mapped,omitempty"` // removeElement: cache[key] == elem
+	Tot     int64    `json:"tot"`              // Reserve: totalDiskSizeNow as computed
+	HasTot  bool     `json:"hastot,omitempty"`
+	Victims []uint64 `json:"victims,omitempty"` // elements removed during this operation, in order
+	Path    string   `json:"path,omitempty"`
+	Op      string   `json:"op,omitempty"`
+	Err     string   `json:"err,omitempty"`
+	// scalar state after the step
+	Cur  int64 `json:"cur"`
+	Resv int64 `json:"resv"`
+	Unc  int64 `json:"unc"`
+	N    int   `json:"n"`
+	LL   int   `json:"ll"`
+	Max  int64 `json:"max"`
+	HL   int64 `json:"hl"`
+}
+
+type verifLruState struct {
+	victims []uint64
+	tot     int64
+	hasTot  bool
+	pending int64 // entries queued for removal and not yet accounted as removed
+}
+
+var (
+	verifMu    sync.Mutex // protects everything below and serialises the sink
+	verifSeq   int64
+	verifSink  func(*VerifEvent)
+	verifState = map[*SizedLRU]*verifLruState{}
+	verifOn    atomic.Bool
+	verifGateF atomic.Pointer[func(lru uint64, g int64, point string)]
+	verifFile  *os.File
+)
+
+func init() {
+	if p := os.Getenv("VERIF_TRACE"); p != "" {
+		f, err := os.OpenFile(p+"."+strconv.Itoa(os.Getpid()), os.O_CREATE|os.O_WRONLY|os.O_APPEND, 0644)
+		if err == nil {
+			verifFile = f
+			enc := json.NewEncoder(f)
+			VerifSetSink(func(e *VerifEvent) { _ = enc.Encode(e) })
+		}
+	}
+}
+
+// VerifSetSink installs (or, with nil, removes) the event sink.
+func VerifSetSink(f func(*VerifEvent)) {
+	verifMu.Lock()
+	verifSink = f
+	verifMu.Unlock()
+	verifOn.Store(f != nil)
+}
+
+// VerifSetGate installs (or, with nil, removes) the gate function.
+func VerifSetGate(f func(lru uint64, g int64, point string)) {
+	if f == nil {
+		verifGateF.Store(nil)
+		return
+	}
+	verifGateF.Store(&f)
+}
+
+// VerifGoid returns the current goroutine's id.
+func VerifGoid() int64 {
+	var buf [64]byte
+	n := runtime.Stack(buf[:], false)
+	// "goroutine 123 ["
+	s := buf[10:n]
+	var id int64
+	for _, c := range s {
+		if c < '0' || c > '9' {
+			break
+		}
+		id = id*10 + int64(c-'0')
+	}
+	return id
+}
+
+func verifLruID(c *SizedLRU) uint64 {
+	return uint64(uintptrOf(c))
+}
+
+func (c *SizedLRU) verifSt() *verifLruState {
+	st := verifState[c]
+	if st == nil {
+		st = &verifLruState{}
+		verifState[c] = st
+	}
+	return st
+}
+
+// emit fills in the scalar state and hands the event to the sink.
+// Caller must not hold verifMu.
+func (c *SizedLRU) verifEmit(e *VerifEvent, locked bool) {
+	if !verifOn.Load() {
+		return
+	}
+	e.G = VerifGoid()
+	e.Lru = verifLruID(c)
+	verifMu.Lock()
+	defer verifMu.Unlock()
+	if verifSink == nil {
+		return
+	}
+	if locked {
+		e.Cur, e.Resv, e.Unc = c.currentSize, c.reservedSize, c.uncompressedSize
+		e.N, e.LL = len(c.cache), c.ll.Len()
+		st := c.verifSt()
+		e.Victims, st.victims = st.victims, nil
+		if st.hasTot {
+			e.Tot, e.HasTot = st.tot, true
+			st.hasTot = false
+		}
+		e.HL = c.maxSizeHardLimit
+	}
+	e.Max = c.maxSize
+	verifSeq++
+	e.Seq = verifSeq
+	verifSink(e)
+}
+
+func (c *SizedLRU) verifAdd(key string, value lruItem, ok *bool) {
+	if !verifOn.Load() {
+		return
+	}
+	var el uint64
+	if ee, hit := c.cache[key]; hit {
+		el = uint64(uintptrOfElem(ee))
+	}
+	c.verifEmit(&VerifEvent{Ev: "Add", Key: key, Elem: el, Size: value.size, Dsz: value.sizeOnDisk,
+		Rnd: value.random, Legacy: value.legacy, Ok: *ok}, true)
+}
+
+func (c *SizedLRU) verifGet(key string) {
+	if !verifOn.Load() {
+		return
+	}
+	e := &VerifEvent{Ev: "Get", Key: key}
+	if ee, hit := c.cache[key]; hit {
+		e.Ok = true
+		e.Elem = uint64(uintptrOfElem(ee))
+		v := ee.Value.(*entry).value
+		e.Size, e.Dsz, e.Rnd, e.Legacy = v.size, v.sizeOnDisk, v.random, v.legacy
+	}
+	c.verifEmit(e, true)
+}
+
+func (c *SizedLRU) verifReserve(size int64) func() {
+	if !verifOn.Load() {
+		return func() {}
+	}
+	pre := c.reservedSize
+	return func() {
+		c.verifEmit(&VerifEvent{Ev: "Reserve", Size: size, Ok: size == 0 || (size > 0 && c.reservedSize == pre+size)}, true)
+	}
+}
+
+func (c *SizedLRU) verifUnreserve(size int64) func() {
+	if !verifOn.Load() {
+		return func() {}
+	}
+	pre := c.reservedSize
+	return func() {
+		c.verifEmit(&VerifEvent{Ev: "Unreserve", Size: size, Ok: size == 0 || (size > 0 && c.reservedSize == pre-size)}, true)
+	}
+}
+
+func (c *SizedLRU) verifTot(tot uint64) {
+	if !verifOn.Load() {
+		return
+	}
+	verifMu.Lock()
+	st := c.verifSt()
+	st.tot, st.hasTot = int64(tot), true
+	verifMu.Unlock()
+}
+
+// verifRemove is called at the start of removeElement.
+func (c *SizedLRU) verifRemove(e *list.Element) {
+	if !verifOn.Load() {
+		return
+	}
+	verifMu.Lock()
+	st := c.verifSt()
+	st.victims = append(st.victims, uint64(uintptrOfElem(e)))
+	verifMu.Unlock()
+}
+
+// verifRemoved is called at the end of the exported RemoveElement / RemoveKey.
+func (c *SizedLRU) verifRemoved(key string) {
+	if !verifOn.Load() {
+		return
+	}
+	c.verifEmit(&VerifEvent{Ev: "Remove", Key: key}, true)
+}
+
+func (c *SizedLRU) verifQueued(e *entry) {
+	verifMu.Lock()
+	c.verifSt().pending++
+	verifMu.Unlock()
+}
+
+func (c *SizedLRU) verifEvict(ev string, kv *entry) {
+	if ev == "EvictDone" {
+		verifMu.Lock()
+		c.verifSt().pending--
+		verifMu.Unlock()
+	}
+	if !verifOn.Load() {
+		return
+	}
+	c.verifEmit(&VerifEvent{Ev: ev, Key: kv.key, Size: kv.value.size, Dsz: kv.value.sizeOnDisk, Rnd: kv.value.random, Legacy: kv.value.legacy}, false)
+}
+
+func (c *SizedLRU) verifGate(point string) {
+	if f := verifGateF.Load(); f != nil {
+		(*f)(verifLruID(c), VerifGoid(), point)
+	}
+}
+
+func (c *diskCache) verifGate(point string) { c.lru.verifGate(point) }
+
+func (c *diskCache) verifFileEv(ev string, path string) {
+	if !verifOn.Load() {
+		return
+	}
+	c.lru.verifEmit(&VerifEvent{Ev: ev, Path: path}, false)
+}
+
+// verifReq emits ReqBegin now and returns the function emitting ReqEnd.
+func (c *diskCache) verifReq(op string, key string, size int64, rErr *error) func() {
+	if !verifOn.Load() {
+		return func() {}
+	}
+	c.lru.verifEmit(&VerifEvent{Ev: "ReqBegin", Op: op, Key: key, Size: size}, false)
+	return func() {
+		e := &VerifEvent{Ev: "ReqEnd", Op: op, Key: key, Size: size, Ok: true}
+		if rErr != nil && *rErr != nil {
+			e.Ok = false
+			e.Err = (*rErr).Error()
+		}
+		c.lru.verifEmit(e, false)
+	}
+}
+
+// VerifEntry is one indexed entry of a snapshot.
+type VerifEntry struct {
+	Key    string `json:"key"`
+	Size   int64  `json:"size"`
+	Dsz    int64  `json:"dsz"`
+	Rnd    string `json:"rnd"`
+	Legacy bool   `json:"legacy"`
+	Path   string `json:"path"` // relative to the cache directory
+	Elem   uint64 `json:"elem"`
+}
+
+// VerifSnap is the projected abstract state of a cache, taken under the lock.
+type VerifSnap struct {
+	Lru     uint64       `json:"lru"`
+	Dir     string       `json:"dir"`
+	Entries []VerifEntry `json:"entries"` // most recently used first
+	Cur     int64        `json:"cur"`
+	Resv    int64        `json:"resv"`
+	Unc     int64        `json:"unc"`
+	N       int          `json:"n"`
+	EvqSize int64        `json:"evq"`
+	Pending int64        `json:"pending"`
+	Max     int64        `json:"max"`
+	HL      int64        `json:"hl"`
+}
+
+func verifUnwrap(c Cache) *diskCache {
+	switch v := c.(type) {
+	case *diskCache:
+		return v
+	case *metricsDecorator:
+		return v.diskCache
+	}
+	return nil
+}
+
+// VerifSnapshot returns the projected state of c.
+func VerifSnapshot(cc Cache) *VerifSnap {
+	c := verifUnwrap(cc)
+	if c == nil {
+		return nil
+	}
+	c.mu.Lock()
+	defer c.mu.Unlock()
+	s := &VerifSnap{Lru: verifLruID(&c.lru), Dir: c.dir, Cur: c.lru.currentSize, Resv: c.lru.reservedSize,
+		Unc: c.lru.uncompressedSize, N: len(c.lru.cache), EvqSize: c.lru.queuedEvictionsSize.Load(),
+		Max: c.lru.maxSize, HL: c.lru.maxSizeHardLimit}
+	for e := c.lru.ll.Front(); e != nil; e = e.Next() {
+		kv := e.Value.(*entry)
+		p := c.getElementPath(kv.key, kv.value)
+		if len(p) > len(c.dir) {
+			p = p[len(c.dir)+1:]
+		}
+		s.Entries = append(s.Entries, VerifEntry{Key: kv.key, Size: kv.value.size, Dsz: kv.value.sizeOnDisk,
+			Rnd: kv.value.random, Legacy: kv.value.legacy, Path: p, Elem: uint64(uintptrOfElem(e))})
+	}
+	verifMu.Lock()
+	s.Pending = c.lru.verifSt().pending
+	verifMu.Unlock()
+	return s
+}
+
+// VerifLruID returns the identity used in events for the cache's index.
+func VerifLruID(cc Cache) uint64 {
+	c := verifUnwrap(cc)
+	if c == nil {
+		return 0
+	}
+	return verifLruID(&c.lru)
+}
+
+// VerifEvictorIdle reports whether every entry queued for removal has been
+// removed from the file system and accounted for.
+func VerifEvictorIdle(cc Cache) bool {
+	c := verifUnwrap(cc)
+	if c == nil {
+		return true
+	}
+	verifMu.Lock()
+	defer verifMu.Unlock()
+	return c.lru.verifSt().pending == 0
+}
+
+// VerifNote writes a free-form marker event (used by drivers).
+func VerifNote(cc Cache, ev string, op string) {
+	c := verifUnwrap(cc)
+	if c == nil {
+		return
+	}
+	c.lru.verifEmit(&VerifEvent{Ev: ev, Op: op}, false)
+}
+
+// VerifFlush syncs the env-configured trace file, if any.
+func VerifFlush() {
+	verifMu.Lock()
+	if verifFile != nil {
+		_ = verifFile.Sync()
+	}
+	verifMu.Unlock()
+}
